@@ -1,1 +1,312 @@
-/-! C31 — property theorems (stub: nothing proved yet). -/
+import B6.Model.FeatureID
+import B6.Lemmas.FeatureID
+/-!
+# C31 — Feature IDs survive every textual and wire encoding
+
+Theorems about `B6.Model.FeatureID` (model of `FeatureID` in world.go / protos.go / ids.go, the alias
+table of api/shell.go and the compact index's order key in ingest/compact/encoding.go).
+
+A *valid* ID has a type other than `invalid` and a non-empty namespace (`FeatureID.IsValid`); values are
+64-bit (`value < 2^64`).  Namespaces are arbitrary byte strings — `/` included.
+
+`UnparseFeatureID` is modelled twice: `unparseOriginal` (the unchanged tree: the alias form is printed
+whenever namespace and type match) and `unparse` (with fixes/C31-unparse-alias-fallback.patch: the alias
+form is printed only when it parses back).  `alias_original_counterexample` shows the defect of the
+former on a concrete valid ID; all positive theorems are about the repaired function.
+-/
+namespace B6.Props.C31
+open B6.Model.FeatureID B6.Lemmas.FeatureID
+
+/-! ## text, JSON, YAML, protobuf -/
+
+/-- `FeatureIDFromString(id.String()) == id` for every ID whose type is not `invalid`, every namespace
+(also empty, also containing `/`) and every 64-bit value. -/
+theorem id_string_roundtrip (f : FeatureID) (hv : f.value < 2 ^ 64) (ht : f.type ≠ .invalid) :
+    fromString (idString f) = f :=
+  fromString_idString f hv ht
+
+example : fromString (idString ⟨.collection, bytes! "a/b/c", 2 ^ 64 - 1⟩)
+    = ⟨.collection, bytes! "a/b/c", 2 ^ 64 - 1⟩ := by decide
+
+/-- JSON: the string given to the JSON library comes back through `UnmarshalJSON` as the same ID. -/
+theorem id_json_roundtrip (f : FeatureID) (hv : f.value < 2 ^ 64) (ht : f.type ≠ .invalid) :
+    fromJSONString (jsonString f) = f :=
+  fromString_idString f hv ht
+
+/-- YAML: the string given to the YAML library (leading `/`) comes back through `UnmarshalYAML`. -/
+theorem id_yaml_roundtrip (f : FeatureID) (hv : f.value < 2 ^ 64) (ht : f.type ≠ .invalid) :
+    fromYAMLString (yamlString f) = f := by
+  simp only [fromYAMLString, yamlString]
+  exact fromString_idString f hv ht
+
+example : fromYAMLString (yamlString ⟨.path, bytes! "x/", 0⟩) = ⟨.path, bytes! "x/", 0⟩ := by decide
+
+/-- protobuf: every ID (the invalid type included) survives `NewProtoFromFeatureID` /
+`NewFeatureIDFromProto`. -/
+theorem id_proto_roundtrip (f : FeatureID) : fromProto (toProto f) = some f := by
+  obtain ⟨t, ns, v⟩ := f
+  cases t <;> rfl
+
+/-- the string form is injective on valid 64-bit IDs (so text keys never collide) -/
+theorem id_string_injective (f g : FeatureID) (hf : f.value < 2 ^ 64) (hg : g.value < 2 ^ 64)
+    (tf : f.type ≠ .invalid) (tg : g.type ≠ .invalid) (h : idString f = idString g) : f = g := by
+  rw [← fromString_idString f hf tf, ← fromString_idString g hg tg, h]
+
+/-! ## shell aliases -/
+
+theorem findByPrefix_canonical (f : FeatureID) : findByPrefix (47 :: idString f) aliases = none := by
+  obtain ⟨t, ns, v⟩ := f
+  cases t <;> simp [findByPrefix, aliases, idString, FType.name, List.isPrefixOf]
+
+theorem findByPrefix_pre (a : Alias) (h : a ∈ aliases) (rest : Bytes) :
+    findByPrefix (a.pre ++ rest) aliases = some a := by
+  simp only [aliases, List.mem_cons, List.not_mem_nil, or_false] at h
+  rcases h with rfl | rfl | rfl | rfl | rfl | rfl | rfl <;>
+    simp [findByPrefix, aliases, List.isPrefixOf]
+
+theorem findByID_mem (f : FeatureID) : ∀ (l : List Alias) (a : Alias), findByID f l = some a →
+    a ∈ l ∧ a.ns = f.ns := by
+  intro l
+  induction l with
+  | nil => intro a h; simp [findByID] at h
+  | cons x xs ih =>
+    intro a h
+    simp only [findByID] at h
+    split at h
+    · rename_i hc
+      simp only [Option.some.injEq] at h
+      subst h
+      exact ⟨by simp, hc.1⟩
+    · have := ih a h
+      exact ⟨by simp [this.1], this.2⟩
+
+/-- every alias codec prints a token that starts with the alias prefix -/
+theorem toToken_pre (a : Alias) (f : FeatureID) (hns : a.ns = f.ns) (hmem : a ∈ aliases) :
+    ∃ rest, a.toToken f = a.pre ++ rest := by
+  simp only [aliases, List.mem_cons, List.not_mem_nil, or_false] at hmem
+  rcases hmem with rfl | rfl | rfl | rfl | rfl | rfl | rfl
+  all_goals first
+    | exact ⟨_, rfl⟩
+    | (simp only [Alias.toToken, ukONSCodeFromFeatureID, ← hns, ne_eq, not_true_eq_false, ↓reduceIte]
+       exact ⟨_, List.append_assoc _ _ _⟩)
+
+/-- the canonical token `/type/namespace/value` parses back to the ID, without error -/
+theorem canonical_token_roundtrip (f : FeatureID) (hv : f.value < 2 ^ 64) (hvalid : f.isValid = true) :
+    parseToken (47 :: idString f) = some (f, false) := by
+  have ht : f.type ≠ .invalid := by
+    simp only [FeatureID.isValid, Bool.and_eq_true, decide_eq_true_eq] at hvalid
+    exact hvalid.2
+  simp only [parseToken, findByPrefix_canonical, fromString_idString f hv ht, hvalid, Bool.not_true]
+
+/-- **Shell round trip** (with the fix): for every valid 64-bit ID, abbreviated or not,
+`ParseFeatureIDToken(UnparseFeatureID(id, abbreviate)) == (id, nil)`. -/
+theorem alias_roundtrip (f : FeatureID) (hv : f.value < 2 ^ 64) (hvalid : f.isValid = true)
+    (abbreviate : Bool) : parseToken (unparse f abbreviate) = some (f, false) := by
+  have canon := canonical_token_roundtrip f hv hvalid
+  unfold unparse
+  cases abbreviate with
+  | false => simpa using canon
+  | true =>
+    simp only [↓reduceIte]
+    cases hfind : findByID f aliases with
+    | none => exact canon
+    | some a =>
+      simp only
+      obtain ⟨hmem, hns⟩ := findByID_mem f aliases a hfind
+      obtain ⟨rest, hrest⟩ := toToken_pre a f hns hmem
+      split
+      · rename_i hchk
+        rw [hrest] at hchk ⊢
+        simp only [parseToken, findByPrefix_pre a hmem rest]
+        rw [hchk]
+      · exact canon
+
+example : parseToken (unparse ⟨.point, nsOSMNode, 3501612811⟩ true)
+    = some (⟨.point, nsOSMNode, 3501612811⟩, false) := by decide
+example : unparse ⟨.point, nsOSMNode, 3501612811⟩ true = bytes! "/n/3501612811" := by decide
+
+/-- In the unchanged tree the alias form was printed even when the codec cannot represent the value:
+the valid ID `point/ordnancesurvey.co.uk/code-point/3` printed as `/gb/codepoint/00000000`, which parses
+(with a nil error) to the invalid ID. -/
+theorem alias_original_counterexample :
+    ∃ f : FeatureID, f.isValid = true ∧ f.value < 2 ^ 64 ∧
+      parseToken (unparseOriginal f true) ≠ some (f, false) :=
+  ⟨⟨.point, nsGBCodePoint, 3⟩, by decide, by decide, by decide⟩
+
+/-- the integer aliases (`/n/ /w/ /a/ /r/ /gb/uprn/`) are used for every 64-bit value -/
+theorem alias_used_uint (a : Alias) (hmem : a ∈ aliases) (hc : a.codec = .uint) (v : Nat)
+    (hv : v < 2 ^ 64) : unparse ⟨a.type, a.ns, v⟩ true = a.pre ++ dec v := by
+  simp only [aliases, List.mem_cons, List.not_mem_nil, or_false] at hmem
+  rcases hmem with rfl | rfl | rfl | rfl | rfl | rfl | rfl
+  all_goals first
+    | (simp at hc; done)
+    | simp [unparse, findByID, aliases, nsOSMNode, nsOSMWay, nsOSMRelation, nsUKONS, nsGBCodePoint,
+        nsGBUPRN, Alias.toToken, Alias.fromRest, parseUint_dec v hv]
+
+/-- postcodes: packing then unpacking a normalised postcode gives it back -/
+theorem postcode_roundtrip (p : Bytes) (h : ValidPostcode p) :
+    postcodeFromPointID (pointIDFromGBPostcode p) = some p :=
+  postcode_of_pointID p h
+
+example : ValidPostcode (bytes! "EC1A1BB") := by
+  refine ⟨by decide, by decide, ?_⟩
+  intro c hc
+  simp only [List.mem_cons, List.not_mem_nil, or_false] at hc
+  unfold pcChar
+  omega
+
+/-- postcodes: the ID of every normalised postcode prints as `/gb/codepoint/<lower case>` … -/
+theorem alias_used_postcode (p : Bytes) (h : ValidPostcode p) :
+    unparse (pointIDFromGBPostcode p) true = bytes! "/gb/codepoint/" ++ toLower p := by
+  have hid := (pointID_valid p h).1
+  have hback := postcode_of_pointID p h
+  have hlow := pointID_lower p h
+  rw [hid] at hback hlow ⊢
+  have hfind : findByID ⟨.point, nsGBCodePoint, pcVal p 0 * 4 + (p.length - 5)⟩ aliases
+      = some ⟨bytes! "/gb/codepoint/", nsGBCodePoint, .point, .codepoint⟩ := by
+    simp [findByID, aliases, nsOSMNode, nsOSMWay, nsOSMRelation, nsUKONS, nsGBCodePoint]
+  simp only [unparse, ↓reduceIte, hfind, Alias.toToken, hback, Option.getD_some, Alias.fromRest]
+  rw [List.drop_left' rfl, hlow]
+  simp
+
+/-- … and that token parses back to the same ID. -/
+theorem alias_postcode_roundtrip (p : Bytes) (h : ValidPostcode p) :
+    parseToken (bytes! "/gb/codepoint/" ++ toLower p) = some (pointIDFromGBPostcode p, false) := by
+  rw [← alias_used_postcode p h]
+  have hid := (pointID_valid p h)
+  have h67 : (64 : Nat) ^ 7 = 4398046511104 := by decide
+  apply alias_roundtrip
+  · rw [hid.1]; simp only; have := h.2.1; omega
+  · rw [hid.1]; simp [FeatureID.isValid, nsGBCodePoint]
+
+/-- ONS codes: the ID built from letter + 8 digits and a year 1900–2155 prints as
+`/uk/ons/<year>/<letter><8 digits>` … -/
+theorem alias_used_ons (letter year n : Nat) (h : ValidONS letter year n) :
+    unparse (featureIDFromUKONSCode (letter :: pad8 n) (year : Int) .area) true
+      = bytes! "/uk/ons/" ++ dec year ++ 47 :: letter :: pad8 n := by
+  have hid := onsID_eq letter year n h .area
+  have hdec := ons_decode letter year n h .area
+  rw [hid]
+  have hfind : findByID ⟨.area, nsUKONS, onsValue letter year n⟩ aliases
+      = some ⟨bytes! "/uk/ons/", nsUKONS, .area, .ons⟩ := by
+    simp [findByID, aliases, nsOSMNode, nsOSMWay, nsOSMRelation, nsUKONS]
+  obtain ⟨hl, hl47, hy1, hy2, hn⟩ := h
+  have hsplit : splitSlash (dec year ++ 47 :: letter :: pad8 n) = [dec year, letter :: pad8 n] := by
+    rw [splitSlash_append _ _ (slash_not_mem_dec year), splitSlash_no_slash]
+    intro hm
+    simp only [List.mem_cons] at hm
+    rcases hm with hm | hm
+    · exact hl47 hm.symm
+    · have := pad8_digits n 47 hm; omega
+  have hdrop : (bytes! "/uk/ons/" ++ dec year ++ 47 :: letter :: pad8 n).drop (bytes! "/uk/ons/").length
+      = dec year ++ 47 :: letter :: pad8 n := by
+    rw [List.append_assoc]; exact List.drop_left' rfl
+  simp only [unparse, ↓reduceIte, hfind, Alias.toToken, hdec, Alias.fromRest, hdrop, hsplit,
+    atoi_dec year (by omega), hid]
+  simp [FeatureID.isValid, nsUKONS]
+
+/-- … and that token parses back to the same ID. -/
+theorem alias_ons_roundtrip (letter year n : Nat) (h : ValidONS letter year n) :
+    parseToken (bytes! "/uk/ons/" ++ dec year ++ 47 :: letter :: pad8 n)
+      = some (featureIDFromUKONSCode (letter :: pad8 n) (year : Int) .area, false) := by
+  rw [← alias_used_ons letter year n h]
+  have hid := onsID_eq letter year n h .area
+  obtain ⟨hl, hl47, hy1, hy2, hn⟩ := h
+  apply alias_roundtrip
+  · rw [hid]; simp only [onsValue, Nat.reducePow]; omega
+  · rw [hid]; simp [FeatureID.isValid, nsUKONS]
+
+example : ValidONS 69 2011 1000953 := by unfold ValidONS; omega
+example : unparse (featureIDFromUKONSCode (69 :: pad8 1000953) 2011 .area) true
+    = bytes! "/uk/ons/2011/E01000953" := by decide
+
+/-! ## order -/
+
+/-- `FeatureID.Less` is a strict total order: irreflexive, transitive, trichotomous. -/
+theorem less_strict_total :
+    (∀ a : FeatureID, less a a = false) ∧
+    (∀ a b c : FeatureID, less a b = true → less b c = true → less a c = true) ∧
+    (∀ a b : FeatureID, less a b = true ∨ a = b ∨ less b a = true) :=
+  ⟨less_irrefl, less_trans, less_trichotomy⟩
+
+/-- hence asymmetric: never both `a < b` and `b < a` -/
+theorem less_asymm (a b : FeatureID) (h : less a b = true) : less b a = false := by
+  cases hb : less b a with
+  | false => rfl
+  | true =>
+    have := less_trans a b a h hb
+    rw [less_irrefl] at this
+    exact absurd this (by simp)
+
+example : less ⟨.point, bytes! "a/b", 9⟩ ⟨.point, bytes! "a/b/c", 0⟩ = true := by decide
+
+/-- every namespace handed to `FillFromNamespaces` (and the empty one) can be encoded … -/
+theorem encode_isSome (nss : List Bytes) (ns : Bytes) (h : ns ∈ [] :: nss) :
+    (encode (fillTable nss) ns).isSome = true := by
+  apply encodeFrom_isSome
+  left
+  rw [fillTable, mem_sortNs]
+  exact h
+
+/-- … and the table is sorted, with one more entry than the input (`sort_preserves`). -/
+theorem fillTable_sorted (nss : List Bytes) :
+    Sorted (fillTable nss) ∧ (fillTable nss).length = nss.length + 1 ∧
+      ∀ ns, ns ∈ fillTable nss ↔ ns ∈ [] :: nss :=
+  ⟨sorted_sortNs _, by simp [fillTable, length_sortNs], fun ns => mem_sortNs ns _⟩
+
+/-- **The compact index orders IDs as `Less` does.**  For the table built by `FillFromNamespaces` from
+any namespace list (duplicates allowed) with at most 2^13 entries, and any two IDs whose namespaces are
+in the table: comparing `(CombineTypeAndNamespace(type, Encode(ns)), value)` as `compact.FeatureIDs.Less`
+does gives the same answer as `FeatureID.Less`. -/
+theorem compact_order_agrees (nss : List Bytes) (a b : FeatureID) (ka kb : Nat × Nat)
+    (hlen : (fillTable nss).length ≤ 8192)
+    (ha : compactKey (fillTable nss) a = some ka) (hb : compactKey (fillTable nss) b = some kb) :
+    keyLess ka kb = less a b := by
+  obtain ⟨ta, na, va⟩ := a
+  obtain ⟨tb, nb, vb⟩ := b
+  have hs : Sorted (fillTable nss) := sorted_sortNs _
+  simp only [compactKey, Option.map_eq_some_iff] at ha hb
+  obtain ⟨ea, hea, rfl⟩ := ha
+  obtain ⟨eb, heb, rfl⟩ := hb
+  have ga := encode_spec _ _ _ (by omega) hea
+  have gb := encode_spec _ _ _ (by omega) heb
+  have la : ea < 8192 := by
+    rcases List.getElem?_eq_some_iff.mp ga with ⟨h, _⟩; omega
+  have lb : eb < 8192 := by
+    rcases List.getElem?_eq_some_iff.mp gb with ⟨h, _⟩; omega
+  simp only [keyLess, less, combine_eq _ _ la, combine_eq _ _ lb]
+  by_cases ht : ta = tb
+  · subst ht
+    by_cases hn : na = nb
+    · subst hn
+      have : ea = eb := by rw [hea] at heb; simpa using heb
+      subst this
+      simp
+    · simp only [↓reduceIte, hn]
+      have hne : ea ≠ eb := by
+        intro e; subst e; rw [ga] at gb; exact hn (by simpa using gb)
+      have h1 : ¬ ta.toNat * 8192 + ea = ta.toNat * 8192 + eb := by omega
+      simp only [h1, ↓reduceIte]
+      cases hl : lexLt na nb with
+      | true =>
+        have := sorted_index_lt _ hs ea eb na nb ga gb hl
+        simp; omega
+      | false =>
+        rcases lexLt_trichotomy na nb with h | h | h
+        · rw [hl] at h; exact absurd h (by simp)
+        · exact absurd h hn
+        · have := sorted_index_lt _ hs eb ea nb na gb ga h
+          simp; omega
+  · have hne : ta.toNat ≠ tb.toNat := fun e => ht (toNat_inj _ _ e)
+    have h1 : ¬ ta.toNat * 8192 + ea = tb.toNat * 8192 + eb := by omega
+    simp only [h1, ↓reduceIte, ht]
+    by_cases hlt : ta.toNat < tb.toNat
+    · have : ta.toNat * 8192 + ea < tb.toNat * 8192 + eb := by omega
+      simp [hlt, this]
+    · have : ¬ ta.toNat * 8192 + ea < tb.toNat * 8192 + eb := by omega
+      simp [hlt, this]
+
+example : compactKey (fillTable [bytes! "b", bytes! "a/x", bytes! "b"]) ⟨.area, bytes! "b", 7⟩
+    = some (2 * 8192 + 3, 7) := by decide
+
+end B6.Props.C31
